@@ -53,11 +53,12 @@ def build_request(history, n_ca, n_kt):
             phases.append(ph)
             notes.append({"event": ev, "state": state, "endpoint": None})
         elif ev.startswith("renew"):
-            e = ev[-1]
+            # "renewA!" = a renewal during which one request is answered with a fault (the script says which)
+            e = ev.rstrip("!")[-1]
             ph = {"attempts": 1, "files": {"main.toml": cfg.to_toml(doc_for(state, [e], n_kt))}, "pre": pending_pre}
             pending_pre = []
             phases.append(ph)
-            notes.append({"event": ev, "state": state, "endpoint": e})
+            notes.append({"event": ev, "state": state, "endpoint": e, "faulty": ev.endswith("!")})
     if pending_pre:
         phases.append({"mode": "none", "pre": pending_pre})
         notes.append({"event": "forget-only", "state": state, "endpoint": None})
@@ -160,7 +161,7 @@ def judge(req, obs):
         if ph.get("run") == "wall-timeout":
             add("renew-succeeds", "hang|event=%s" % note["event"], "the renewal terminates", "hang; history %s" % hist)
             continue
-        if not success:
+        if not success and not note.get("faulty"):
             add("renew-succeeds", "prefix=%s" % canonical_tail(m["history"]), "a renewal against a conforming CA never fails",
                 "renewal on %s failed after history %s: %s" % (e, hist, post_op_status(evs, ph)))
         # jws / rollover discipline (the roll-over must be authorised by the key the CA holds)
@@ -169,7 +170,7 @@ def judge(req, obs):
                 for v in x.get(field) or []:
                     add("request-valid", "%s|%s" % (x["kind"], v.split(":")[0]), "every account request verifies under the key the CA holds", "%s after history %s" % (v, hist))
         # registrations
-        new_acct = [x for x in reqs if x["kind"] == "newAccount" and not x.get("rejected")]
+        new_acct = [x for x in reqs if x["kind"] == "newAccount" and not x.get("rejected") and str(x.get("answer", "ok")) == "ok"]
         pre_ep = (pre.get("endpoint_details") or {}).get(ep, {})
         url_stored = bool(pre_ep.get("account_url"))
         adne = [x for x in reqs if x.get("unknown_kid") or "accountDoesNotExist" in str(x.get("answer"))]
@@ -270,7 +271,8 @@ def run(ctx):
                 "CA forgets the account on A(/B)} to depth %d over one account on %d endpoints; each history is re-executed on the real daemon (fresh scratch directory, "
                 "one mock CA per endpoint, one phase per restart/renewal) and deduplicated by a canonical key (configuration indices; per endpoint: URL stored?, stored key "
                 "fingerprint = current/past/none, stored contact fingerprint current?, CA's record relative to the daemon's keys and contacts; number of superseded keys). "
-                "Invariants on every renewal transition. E4: account shapes saved and loaded back; every truncation point of account files.") % (depth, n_ca)
+                "Invariants on every renewal transition. Interrupted synchronisations: issue, edit (contacts/key/both/binding), a renewal in which each request position in turn is refused or cut, "
+                "optional restart, clean renewal. E4: account shapes saved and loaded back; every truncation point of account files.") % (depth, n_ca)
     seen = {}
     core_of = {(): ("initial",)}
     frontier = [[]]
@@ -352,6 +354,53 @@ def run(ctx):
         res.state_keys.add(str(k))
     res.extra["history_search"] = {"depth_completed": depth_done, "histories_executed": total, "distinct_states": len(seen), "events": events, "endpoints": n_ca, "key_types": n_kt,
                                    "fixpoint": not frontier}
+    # interrupted synchronisations: issue, edit, a renewal in which one request (every position in turn) is refused or cut, optionally a restart,
+    # then a clean renewal, which must succeed with valid requests and leave the CA's record equal to the configuration
+    faults = ["err:unauthorized:403", "cut:before"] if ctx.quick else ["err:unauthorized:403", "err:malformed:400", "cut:before", "errbody:nonjson:500"]
+    inter = []
+    for edit in ["contacts", "key", "both", "binding"] + ([] if ctx.quick else ["both+binding"]):
+        for restart in (False, True):
+            inter.append((["renewA"] + edit.split("+") + ["renewA!"] + (["restart"] if restart else []) + ["renewA"], len(edit.split("+")) + 1))
+    dry = [build_request([x.rstrip("!") for x in h], n_ca, n_kt) for h, _ in inter]
+    dry_obs = e1.run_all(ctx.pool, dry, 120.0)
+    ireqs = []
+    for (h, fphase), r0, o0 in zip(inter, dry, dry_obs):
+        e1.check_obs(o0)
+        phase_no = -1
+        positions = []
+        for x in o0.get("events", []):
+            if not x:
+                continue
+            if x.get("ev") == "phase_start":
+                phase_no += 1
+            elif x.get("ev") == "req" and phase_no == 1 and x.get("cp") is not None:
+                positions.append((x["cp"], x["kind"]))
+        if not positions:
+            raise MachineryError("no request in the second phase of %s" % h)
+        for cp, kind in positions:
+            for ans in faults:
+                if kind in ("dir", "newNonce") and ans.startswith("err:") and ans != "err:unauthorized:403":
+                    continue
+                q = build_request(h, n_ca, n_kt)
+                q["script"] = [{"idx": cp, "kind": kind, "answer": ans}]
+                q["meta"]["fault"] = [kind, ans]
+                ireqs.append(q)
+    iobs = e1.run_all(ctx.pool, ireqs, 120.0)
+    npos = 0
+    for q, o in zip(ireqs, iobs):
+        e1.check_obs(o)
+        hit = [c for c in o.get("cps", []) if c["idx"] == q["script"][0]["idx"]]
+        if not hit or hit[0]["kind"] != q["script"][0]["kind"]:
+            raise MachineryError("interrupted-synchronisation run diverged from its dry run at choice point %s" % q["script"][0])
+        npos += 1
+        res.evaluations += 1
+        res.transitions += len(q["phases"])
+        viols, core = judge(q, o)
+        res.state_keys.add(("interrupted", "+".join(q["meta"]["history"]), q["meta"]["fault"][0], q["meta"]["fault"][1], str(core)))
+        res.outcomes["interrupted|%s" % ("viol" if viols else "ok")] += 1
+        for (oracle, sig, ex, ob) in viols:
+            res.violation(oracle, sig + "|interrupted-at=%s" % q["meta"]["fault"][0], ex, ob + " (fault %s at %s)" % (q["meta"]["fault"][1], q["meta"]["fault"][0]), replay=q)
+    res.extra["interrupted_synchronisations"] = {"histories": len(inter), "fault_positions_x_kinds": npos, "faults": faults}
     # persistence shapes and truncation points
     ps = [{"op": "c11_persist", "shard": i, "nshards": 16, "truncate": True} for i in range(16)]
     shapes = 0
